@@ -184,7 +184,7 @@ func (f *Frame) execCall(cur *blockCur, in ssa.Instruction, cc *ssa.CallCommon, 
 		c.stats.callsBuiltin++
 		if f.callerFrame == nil && (b.Name() == "append" || b.Name() == "copy" || b.Name() == "delete" || b.Name() == "close") {
 			f.callAsserts(cur, in, cc, nil, args)
-			f.countCall(cur, cc, nil)
+			f.countCall(cur, in, cc, nil)
 			if c.callPre == nil {
 				c.callPre = map[string]*State{}
 			}
@@ -222,7 +222,7 @@ func (f *Frame) execCall(cur *blockCur, in ssa.Instruction, cc *ssa.CallCommon, 
 		hint = f.prefixSym() + res.Name()
 	}
 	f.callAsserts(cur, in, cc, callee, args)
-	f.countCall(cur, cc, callee)
+	f.countCall(cur, in, cc, callee)
 	if f.callerFrame == nil {
 		// before(NAME, E) in specifications: the state in which the (latest) call of NAME started
 		if c.callPre == nil {
